@@ -112,6 +112,16 @@ class CircuitGraphBranch(GraphBranch[OperationGraphNode]):
                 return node
         return None
 
+    def get_latest_node_of(self, operations: List[ICircuitOperation]) -> Optional[OperationGraphNode]:
+        """
+        If none of the operations is present in graph, return None.
+        :return: Latest relation node corresponding to any of the operations. Defined in relation steps, not in time.
+        """
+        for node in reversed(list(self.get_node_iterator())):
+            if any(node.operation is operation for operation in operations):
+                return node
+        return None
+
     def get_corresponding_node(self, operation: ICircuitOperation) -> Optional[OperationGraphNode]:
         """
         If not able to find corresponding node, return None.
@@ -150,6 +160,9 @@ class CircuitGraphBranch(GraphBranch[OperationGraphNode]):
 
         # Node has relation and is present in graph, append to this (reference) node in graph
         relation_node: Optional[OperationGraphNode] = graph.get_corresponding_node(operation=node.operation.relation_link.reference_node)
+        # Node relates to a group of operations, append to the latest in relation steps such that it is listed after the entire group
+        if isinstance(node.operation.relation_link, MultiRelationLink):
+            relation_node = graph.get_latest_node_of(operations=node.operation.relation_link._reference_nodes)
         relation_node_present: bool = relation_node is not None
         if has_relation and relation_node_present:
             graph.append_pointer_to(relation_node, node)
